@@ -304,7 +304,20 @@ impl<'a> G<'a> {
             }
             Op::Cap => {
                 st.kind = self.rng.below(4) as u8;
-                st.a = if self.prof.huge_args && self.rng.chance(1, 10) { HUGE + self.rng.below(0x100) } else { self.rng.below(len as u64 + 12) };
+                st.a = if self.prof.huge_args && self.rng.chance(1, 8) {
+                    // usize::MAX - k with k around the overflow boundary len + n == usize::MAX + 1
+                    let k = match self.rng.below(6) {
+                        0 => 0,
+                        1 => len.saturating_sub(1) as u64,
+                        2 => len as u64,
+                        3 => len as u64 + 1,
+                        4 => 1,
+                        _ => self.rng.below(0x100),
+                    };
+                    HUGE + (k & 0xff)
+                } else {
+                    self.rng.below(len as u64 + 12)
+                };
             }
             Op::CloneVec | Op::CloneEmpty | Op::CloneEmptyIn => {
                 st.a = self.rng.below(128);
@@ -531,6 +544,19 @@ pub fn generate(batch_seed: u64, index: u64, prof: &Profile, worlds: &[WorldInfo
                 st.b = b;
             }
             _ => {}
+        }
+        if f.op == Op::PushRun && f.form == 1 {
+            // long push runs only where growth is amortised by contract: Heap, or the simulated
+            // back end under its doubling policy (an exact-growth back end would reallocate and
+            // be quarantined 2^16 times)
+            let be = world.be_of(slot);
+            let amortised = be.kind == BeKind::Heap || (be.kind == BeKind::Sim && policy.over_expand == 2);
+            st.n = if amortised { 1024u32 << g.rng.below(5) } else { 64 + g.rng.below(300) as u32 };
+            st.via = g.rng.below(3) as u8;
+        }
+        if f.op == Op::Cap && prof.huge_args && g.rng.chance(1, 3) {
+            let k = *g.rng.pick(&[0u64, 1, len.saturating_sub(1) as u64, len as u64, len as u64 + 1]);
+            st.a = HUGE + (k & 0xff);
         }
         focus_step = Some(g.steps.len());
         g.push(st);
